@@ -9,6 +9,14 @@ CHECKS = {
          "DESIGN.md §3 C01",
          "Held on every executed case: all single-bit mutants of header, TD body, attestation key, QE report and auth data of 4+ accepted quotes must be rejected; ~45 structured forgeries that break exactly one link while everything else is re-signed with keys the harness owns must be rejected at 3 option levels through raw and message entry forms (each derived from a twin the library accepted); for signature/chain flips and random mutants 'accepted => reference says authentic'. Exhaustive only over the stated bit/class space; sound up to ECDSA unforgeability.",
          "Trusts crypto/ecdsa, crypto/x509, encoding/pem. A forged quote needing a signature the harness cannot make (2^-128) is out of reach."),
+ "C09": ("exploration", "runtime monitoring: differential comparison of the library parser/serialiser with an independent reference layout parser/serialiser on hostile byte strings and generated messages",
+         "DESIGN.md §3 C09",
+         "Held on every executed input: same acceptance set as the reference v4 layout parser, every parsed field equal to the reference slice (so a self-consistent offset swap in parser and serialiser is visible), serialise(parse(b)) == b byte for byte, exported part serialisers equal the corresponding input slices, and generated well-formed messages serialise to the reference bytes and parse back proto.Equal. Exhaustive over truncation lengths and size-field boundary grids of the sampled quotes only.",
+         "Trusts the reference offset table (written from the DCAP v4 layout) and proto.Equal."),
+ "C10": ("exploration", "runtime monitoring: crash monitor (recover + breadcrumb attribution of fatal errors) around every public entry point on hostile bytes, structurally mutated messages, hostile endpoint responses and hostile DER",
+         "DESIGN.md §3 C10",
+         "Held on every executed call: no panic and no fatal runtime error in ~15 entry points over the hostile corpus (all truncations, size-field grids, every single structural message mutation, ~100 hostile bodies/headers per endpoint slot, odd-key certificates in every certificate slot, garbage CRLs, ~4k hostile SGX-extension DER values also through really signed leaves, and the reporting API on a different message than the one verified). Says nothing about inputs not executed; hangs only via the watchdog.",
+         "Every call runs inside recover(); fatal errors are attributed by replaying the breadcrumbs of in-flight inputs alone."),
  "C11": ("exploration", "runtime monitoring: must-accept oracle + independent reference verifier over generated honest worlds",
          "DESIGN.md §3 C11",
          "Held on every executed honest world: each world (fresh PKI, randomised quote shape, SVNs, level lists, masks, CRLs, five instants) is verified by the real library at 3 checking levels through 4 entry forms and must be accepted; the independent reference verifier must agree. Sampling, not proof: completeness for honest inputs is the right target because any over-strict comparison (>, off-by-one, rejected NUL/extra bytes) shows up as a rejected honest world.",
